@@ -57,7 +57,7 @@ Theorem C11_good_row_readable : forall objective signed k r, Crash.good_row obje
   exists x, from_dict r = Some (view_of x) /\ v_id (view_of x) = JNum (NInt k) /\
             v_vector (view_of x) = JArr (i_vector x) /\ v_costs (view_of x) = JArr (objective (i_vector x)) /\
             v_costs_signed (view_of x) = signed (i_vector x) (objective (i_vector x)) /\
-            (v_state (view_of x) = JStr "evaluated" \/ v_state (view_of x) = JStr "empty").
+            (v_state (view_of x) = JStr "evaluated" \/ v_state (view_of x) = JStr "empty" \/ v_state (view_of x) = JNull).
 Proof. exact good_row_readable. Qed.
 
 (* the name / parameter / cost rows are written before the constructor returns; no step touches them *)
@@ -102,3 +102,18 @@ Proof.
   cbv zeta. split; [exists (skipn 11 ex_trace ++ Crash.sync_all_steps 9 [1; 2]); reflexivity|].
   vm_compute. repeat split; reflexivity.
 Qed.
+
+(* a second session: the first process dies with the statement of design 2 executed but uncommitted; a new
+   process re-opens the file (design 1 is rebuilt from its row), synchronises the reloaded design 1 again
+   and evaluates design 3; the uncommitted statement is gone, row 1 is still a complete image (state null) *)
+Example C11_ex_reopen :
+  let tr := [SStart 1; SCosts 1; SSigned 1; SDone 1; SExec 1 1; SCommit 1; SReturn 1;
+             SStart 2; SCosts 2; SSigned 2; SDone 2; SExec 2 2;
+             SReopen; SExec 5 1; SCommit 5; SReturn 1; SStart 3; SCosts 3; SSigned 3; SDone 3; SExec 6 3; SCommit 6] in
+  let designs := ex_designs ++ [(3, [JNum (NInt 30)])] in
+  let st := Crash.run_steps ex_obj ex_sg tr (Crash.init_state designs []) in
+  Crash.legal ex_obj ex_sg (Crash.init_state designs []) tr = true /\
+  keys (Crash.recovered st) = [1; 3] /\
+  option_map (fun r => option_map (fun v => (v_state v, v_costs v)) (from_dict r)) (lookup 1 (Crash.recovered st))
+    = Some (Some (JNull, JArr (ex_obj [JNum (NInt 10)]))).
+Proof. vm_compute. repeat split; reflexivity. Qed.
